@@ -451,10 +451,11 @@ func init() {
 		Register(c19Profile(tier, false))
 	})
 	Registry["C15"] = func(r *Run) {
-		r.Rule = "every sequence of <=depth ops over {KV put/TTL put/delete, failed transaction, list push/pop/set, set add/rem, zset add/rem, tick, reopen, Merge} with two-record segments in both RAM index modes; for every Merge transition the full observation before = after (whether Merge returns nil or an error) and = after close+reopen; writes after a Merge are checked against the reference model and after reopen"
+		r.Rule = "every sequence of <=depth ops over {KV put/TTL put/delete, failed transaction, list push/pop/set, set add/rem, zset add/rem, tick, reopen, Merge} with two-record segments in both RAM index modes; for every Merge transition the full observation before = after (whether Merge returns nil or an error) and = after close+reopen; writes after a Merge are checked against the reference model and after reopen; plus long deterministic families (n puts cycling over k keys with deletes and expiring puts, Merge, m more writes, Merge, tick, reopen, write, Merge, reopen over the whole parameter grid) judged after every step"
 		r.Assume = []string{"no transaction runs concurrently with Merge (C17 covers that)"}
 		r.Required = []string{"merge-succeeded", "merge-returned-error", "write-after-merge", "rotated", "tick"}
 		r.Explore(c15Profile(r.Tier), "C15")
+		runLong(r)
 	}
 	Registry["C19"] = func(r *Run) {
 		r.Rule = "every sequence of <=depth ops (KV alphabet: depth 3, in 16 RAM-mode option combinations RWMode x StartFileLoadingMode x SyncEnable x {KeyVal,Key} + 2 sparse; mixed alphabet: depth 2, 8 combinations) is executed under every combination; per-call results, the final observation and the observation after close+reopen are compared with the baseline configuration KV/FileIO/FileIO/nosync - no reference model involved"
